@@ -178,6 +178,8 @@ def run(ctx):
                 "truth table": "the returned AST does not select the documents the written expression denotes",
                 "returned tree": "the returned AST is not a tree over the atoms of the expression"}.get(
                     m.get("what"), m.get("what", ""))
+        if m.get("what") == "returned tree":
+            what += " (%s)" % m.get("got")
         ctx.violation(sig, m, what="%s; input %s (%d inputs)" % (what, m.get("q"), cnt))
     ctx.cov["traces_validated_against_impl"] = tot["cases"]
     ctx.cov["evaluations"] = tot["evals"]
